@@ -65,6 +65,8 @@ type Hooks struct {
 	SlotIsNil func(s *Slot) Tri
 	// DynStore may model a store through a dynamic index.
 	DynStore func(ip *Interp, st *State, p *Ptr, t types.Type, v Val) bool
+	// Branch is called for every conditional branch the domain could not decide.
+	Branch func(ip *Interp, cond *Bool, instr *ssa.If)
 	// Enter is called when an in-module function is entered (inlined).
 	Enter func(ip *Interp, fn *ssa.Function, args []Val)
 	// OverrideCall may replace the analysis of an in-module function.
@@ -92,6 +94,7 @@ type Interp struct {
 	curPos  token.Pos
 	fresh   int
 	steps   int
+	gate    string // key of the branch condition controlling the merge being computed
 }
 
 func New() *Interp {
@@ -99,8 +102,12 @@ func New() *Interp {
 	return &Interp{In: in, Ops: Ops{in}, symObjs: map[string]*Obj{}, locs: map[string]locInfo{}, LiveBlock: map[*ssa.BasicBlock]bool{}, MaxDepth: 12}
 }
 
-// Reset clears per-run logs but keeps objects and atoms.
+// Reset clears per-run logs and starts a new atom table (so that the numbering of
+// merge atoms is deterministic per run); objects are kept.
 func (ip *Interp) Reset() {
+	ip.In = NewInterner()
+	ip.Ops = Ops{ip.In}
+	ip.gate = ""
 	ip.Events = ip.Events[:0]
 	ip.Stores = ip.Stores[:0]
 	ip.Imprec = nil
@@ -247,6 +254,32 @@ func (ip *Interp) Call(fn *ssa.Function, args []Val, bind []Val, st *State) (res
 			continue // dead block
 		}
 		ip.LiveBlock[b] = true
+		ip.gate = ""
+		if len(in) > 1 {
+			// the branch controlling this merge: terminator of the nearest common
+			// dominator of the live predecessors
+			lca := in[0].pred
+			for lca != nil {
+				all := true
+				for _, e := range in[1:] {
+					if !lca.Dominates(e.pred) {
+						all = false
+						break
+					}
+				}
+				if all {
+					break
+				}
+				lca = lca.Idom()
+			}
+			if lca != nil && len(lca.Instrs) > 0 {
+				if iff, ok := lca.Instrs[len(lca.Instrs)-1].(*ssa.If); ok {
+					if cv, ok := act.env[iff.Cond]; ok {
+						ip.gate = ValKey(cv)
+					}
+				}
+			}
+		}
 		cur := ip.mergeIn(in)
 		// phis first, evaluated against the per-edge states
 		for _, instr := range b.Instrs {
@@ -285,6 +318,9 @@ func (ip *Interp) Call(fn *ssa.Function, args []Val, bind []Val, st *State) (res
 				k := TriTop
 				if cb != nil {
 					k = cb.K
+				}
+				if k == TriTop && ip.Hooks.Branch != nil && cb != nil {
+					ip.Hooks.Branch(ip, cb, t)
 				}
 				if k != TriF {
 					s := cur
@@ -942,6 +978,12 @@ func (ip *Interp) indexAddr(act *activation, st *State, t *ssa.IndexAddr) Val {
 	case *Ptr: // pointer to array
 		if b.Obj == nil {
 			break
+		}
+		if arr, ok := derefArray(t.X.Type()); ok {
+			_, sgn, _ := IntType(t.Index.Type())
+			if idx.Hi >= uint64(arr.Len()) || (sgn && idx.Hi > mask(idx.W)>>1) {
+				ip.event(Event{Kind: "index-range", Callee: fmt.Sprintf("array length %d", arr.Len()), Args: []Val{idx, &Ptr{Obj: b.Obj, Path: b.Path}}, Instr: t})
+			}
 		}
 		return &Ptr{Nil: TriF, Obj: b.Obj, Path: appendSel(b.Path, mkSel(idx64)), T: elemT}
 	case *Slice:
